@@ -92,13 +92,44 @@ def verify_into(ctx, files: list[str], targets: list[str] | None = None, *, time
         if z3.is_true(o.goal):
             results[oid] = solve.Result(oid, "unsat", "syntactic", 0.0)
         else:
-            items.append((oid, solve.to_smt2(o.pc, o.goal)))
+            items.append((oid, solve.to_smt2(o.pc, o.goal), solve.to_smt2_core(o.pc, o.goal)))
     for r in solve.discharge(items, timeout_ms, seed(), both=(tier == "thorough")):
         results[r.oid] = r
-    # unknown: look for a validated finite-shape counter-model first (DESIGN 2.4)
+    # relevance pass: an obligation the solver cannot prove from ALL hypotheses is
+    # retried from the quantifier-free hypotheses plus ONE quantified hypothesis at a
+    # time (a subset of the hypotheses: a proof from it is a proof).  Irrelevant
+    # quantified facts are what makes E-matching diverge.
+    sub_items = []
+    for oid, smt, _core in items:
+        if results[oid].status == "unknown":
+            o = index[oid]
+            core = [p for p in o.pc if not solve.has_forall(p)]
+            fas = [p for p in o.pc if solve.has_forall(p)]
+            for k, h in enumerate(fas):
+                sub_items.append((f"{oid}##{k}", solve.to_smt2(core + [h], o.goal)))
+    if sub_items:
+        for r in solve.discharge(sub_items, min(timeout_ms, 5000), seed()):
+            if r.status == "unsat":
+                oid = r.oid.split("##")[0]
+                if results[oid].status == "unknown":
+                    results[oid] = solve.Result(oid, "unsat", "z3", results[oid].time_s + r.time_s, "",
+                                                "proved from the quantifier-free hypotheses plus one quantified hypothesis")
+    # still unknown: brute-force instantiation of the quantified hypotheses at the
+    # ground terms of the goal (a proof if unsat)
     from . import refute
 
-    for oid, smt in items:
+    for oid, smt, _core in items:
+        if results[oid].status == "unknown":
+            o = index[oid]
+            try:
+                ok, why = refute.prove_by_instances(o.pc, o.goal)
+            except z3.Z3Exception as e:
+                ok, why = False, f"instantiation error: {e}"
+            if ok:
+                results[oid] = solve.Result(oid, "unsat", "z3-ground-instances", results[oid].time_s, "", why)
+    # unknown: look for a validated finite-shape counter-model first (DESIGN 2.4)
+
+    for oid, smt, _core in items:
         if results[oid].status == "unknown":
             o = index[oid]
             t1 = time.time()
@@ -111,7 +142,7 @@ def verify_into(ctx, files: list[str], targets: list[str] | None = None, *, time
             else:
                 results[oid].reason += f"; refuter: {why}"
     # one retry at 4x budget for unknowns
-    retry = [(oid, smt) for oid, smt in items if results[oid].status == "unknown"]
+    retry = [(oid, smt) for oid, smt, _core in items if results[oid].status == "unknown"]
     if retry:
         for r in solve.discharge(retry, timeout_ms * 4, seed() + 1):
             if r.status != "unknown":
